@@ -40,12 +40,16 @@ impl ConfigDatabase {
     }
 
     pub fn set(&mut self, key: String, value: String) -> Result<(), Box<dyn Error>> {
+        #[cfg(feature = "verif")]
+        crate::verif::failpoint("config.set", self.db.path(), "put", &key.encode_vec());
         self.db.put(&key.encode_vec(), &value.encode_vec())?;
         self.cache.insert(key, value);
         Ok(())
     }
 
     pub fn flush(&self) -> Result<(), Box<dyn Error>> {
+        #[cfg(feature = "verif")]
+        crate::verif::failpoint("config.flush", self.db.path(), "flush", &[]);
         self.db.flush().map_err(|e| e.into())
     }
 
